@@ -67,7 +67,9 @@ class CoreGen:
                 return self.arg()
             if k < 0.55:
                 self.count("mem:MLOAD")
-                return [("push", r.choice(MEMOFF)), "MLOAD"]
+                # reads do not allocate: the `MAX_MEMORY_SIZE` boundary of `mloc(check_size=True)` is probed here
+                off = r.choice(MEMOFF) if r.random() < 0.93 else r.choice([1 << 20, 1 << 20, (1 << 20) + 1])
+                return [("push", off), "MLOAD"]
             if k < 0.85:
                 return [("push", r.choice(CONST))]
             return [r.choice(["CALLER", "CALLVALUE", "ORIGIN", "ADDRESS", "CALLDATASIZE", "PC"])]
@@ -99,12 +101,17 @@ class CoreGen:
 
     def stmt(self, d):
         r = self.rng
-        k = r.choice(["pop", "mstore", "mstore", "mstore8", "if", "if", "loop", "dupswap"] if d > 0
-                     else ["pop", "mstore", "dupswap"])
+        k = r.choice(["pop", "mstore", "mstore", "mstore8", "copy", "if", "if", "loop", "dupswap"] if d > 0
+                     else ["pop", "mstore", "copy", "dupswap"])
         self.count("stmt:" + k)
+        if k == "copy":
+            op = r.choice(["CALLDATACOPY", "CODECOPY"])
+            self.count("mem:" + op)
+            size = r.choice([0, 1, 4, 32, 36, 64]) if r.random() < 0.95 else r.choice([(1 << 20) + 1, 1 << 30])
+            return [("push", size), ("push", r.choice([0, 0, 3, 4, 36, 100, 1 << 30])), ("push", r.choice(MEMOFF)), op]
         if k == "mstore":
             self.count("mem:MSTORE")
-            off = r.choice(MEMOFF) if r.random() < 0.97 else r.choice([1 << 20, (1 << 20) + 1, 1 << 30])
+            off = r.choice(MEMOFF) if r.random() < 0.97 else r.choice([(1 << 20) + 1, 1 << 30])   # never a valid huge write: the model's memory is a list
             return self.expr(2) + [("push", off), "MSTORE"]
         if k == "mstore8":
             self.count("mem:MSTORE8")
@@ -153,10 +160,13 @@ class CoreGen:
         if k < 0.55:
             return ["INVALID"]
         if k < 0.7:
-            size = r.choice([0, 1, 32, 33, 64, 64, 100]) if r.random() < 0.93 else r.choice([1 << 20, (1 << 20) + 1, 1 << 30])
+            if r.random() < 0.93:
+                size = r.choice([0, 1, 32, 33, 64, 64, 100])
+                off = r.choice([0, 0, 5, 32, 1 << 30] if not size else [0, 0, 5, 32])
+            else:   # around MAX_MEMORY_SIZE: the last readable word, one byte too far, far too large (never a huge *valid* range)
+                off, size = r.choice([((1 << 20) - 32, 32), ((1 << 20) - 31, 32), (0, (1 << 20) + 1), (0, 1 << 30)])
             self.count("mem:RETURN-data" if size else "mem:RETURN-empty")
-            return [("push", size), ("push", r.choice([0, 0, 5, 32, 1 << 30] if not size else [0, 0, 5, 32])),
-                    r.choice(["RETURN", "REVERT"])]
+            return [("push", size), ("push", off), r.choice(["RETURN", "REVERT"])]
         if k < 0.8:
             return [("push", r.choice([0, 1, 2, 0xFFFF])), "JUMP"]
         if k < 0.9:
@@ -170,6 +180,10 @@ class CoreGen:
         if self.rng.random() < 0.4:
             skip = self.fresh()
             items += self.cond() + [("ref", skip), "JUMPI"] + self.end() + [("label", skip)]
+        if any(k.startswith("mem:M") for k in self.hist) and self.rng.random() < 0.6:
+            # make the memory observable: return everything the program may have written
+            self.count("mem:RETURN-all")
+            return items + [("push", self.rng.choice([128, 160, 97])), ("push", 0), self.rng.choice(["RETURN", "REVERT"])]
         return items + self.end()
 
 
